@@ -511,3 +511,71 @@ func flowsToCollection(v ssa.Value, depth int, seen map[ssa.Value]bool) string {
 	}
 	return ""
 }
+
+// SET5: distinct() keeps one representative per class of equal items: every
+// item is compared with *all* representatives kept so far, i.e. the receiver of
+// the membership test is the accumulated result itself (the collection that is
+// extended by the append and returned), not a partition of it.
+func ruleSET5(p *Program) *RuleResult {
+	r := newResult("SET5")
+	fn, err := p.Func("fhirpath/internal/funcs/impl", "Distinct")
+	if err != nil {
+		return r.anchorFail(err)
+	}
+	// the returned accumulator
+	returned := map[ssa.Value]bool{}
+	for _, b := range fn.Blocks {
+		if ret, ok := b.Instrs[len(b.Instrs)-1].(*ssa.Return); ok && len(ret.Results) == 2 {
+			v := ret.Results[0]
+			returned[v] = true
+			if ph, ok := v.(*ssa.Phi); ok {
+				for _, e := range ph.Edges {
+					returned[e] = true
+				}
+			}
+		}
+	}
+	n := 0
+	for _, b := range fn.Blocks {
+		for _, ins := range b.Instrs {
+			c, ok := ins.(*ssa.Call)
+			if !ok || c.Common().StaticCallee() == nil || c.Common().StaticCallee().Name() != "Contains" || !strings.HasSuffix(fnPkgPath(c.Common().StaticCallee()), "/fhirpath/system") {
+				continue
+			}
+			n++
+			r.count("membership_tests", 1)
+			recv := c.Common().Args[0]
+			okAcc := false
+			if ph, ok := recv.(*ssa.Phi); ok && returned[ph] {
+				for _, e := range ph.Edges {
+					if ac, ok := e.(*ssa.Call); ok {
+						if bi, ok := ac.Common().Value.(*ssa.Builtin); ok && bi.Name() == "append" && ac.Common().Args[0] == ssa.Value(ph) {
+							okAcc = true
+						}
+					}
+					// the append result may reach the phi through another phi (continue edge)
+					if ph2, ok := e.(*ssa.Phi); ok {
+						for _, e2 := range ph2.Edges {
+							if ac, ok := e2.(*ssa.Call); ok {
+								if bi, ok := ac.Common().Value.(*ssa.Builtin); ok && bi.Name() == "append" {
+									okAcc = true
+								}
+							}
+						}
+					}
+				}
+			}
+			key := fmt.Sprintf("impl.Distinct|Contains#%d", n)
+			if okAcc {
+				r.ok(key, "distinct() tests each item against the whole accumulated result", p.instrPos(ins), "receiver of Contains is the accumulator that is appended to and returned", true)
+			} else {
+				r.bad(key, "distinct() tests membership against "+valDescr(recv)+", not against the accumulated result", p.instrPos(ins),
+					"items equal to a kept representative outside that subset are kept too (FHIRPath equality crosses types: 1 = 1.0): more than one representative per class")
+			}
+		}
+	}
+	if n == 0 {
+		r.undecided("impl.Distinct|Contains", "no membership test found in Distinct", p.pos(fn.Pos()), "shape changed")
+	}
+	return r
+}
